@@ -776,7 +776,16 @@ func (a *Agent) initialCheckingTimeout() time.Duration {
 		disconnectedTimeout = defaultDisconnectedTimeout
 	}
 
-	return disconnectedTimeout + a.failedTimeout
+	return addTimeouts(disconnectedTimeout, a.failedTimeout)
+}
+
+// addTimeouts adds two non-negative timeouts without wrapping around.
+func addTimeouts(a, b time.Duration) time.Duration {
+	if sum := a + b; sum >= a {
+		return sum
+	}
+
+	return time.Duration(math.MaxInt64)
 }
 
 func (a *Agent) updateConnectionState(newState ConnectionState) {
@@ -941,7 +950,7 @@ func (a *Agent) validateSelectedPair() bool {
 	// Only allow transitions to failed if a.failedTimeout is non-zero
 	totalTimeToFailure := a.failedTimeout
 	if totalTimeToFailure != 0 {
-		totalTimeToFailure += a.disconnectedTimeout
+		totalTimeToFailure = addTimeouts(totalTimeToFailure, a.disconnectedTimeout)
 	}
 
 	a.updateConnectionState(a.connectionStateForDisconnection(disconnectedTime, totalTimeToFailure))
